@@ -132,7 +132,10 @@ def encode(batches):
         pid = PIDS[d["pid"]] if d["pid"] is not None else -1
         b = _DefaultRecordBatchBuilderPy(magic=2, compression_type=0, is_transactional=1 if d["txn"] else 0, producer_id=pid,
                                          producer_epoch=0 if d["pid"] is not None else -1,
-                                         base_sequence=0 if d["pid"] is not None else -1, batch_size=1 << 20)
+                                         # markers are written by the coordinator: they carry the producer's id and
+                                         # epoch but no sequence number (-1)
+                                         base_sequence=0 if (d["pid"] is not None and d["control"] is None) else -1,
+                                         batch_size=1 << 20)
         if d["control"] is None:
             for i, _ in enumerate(d["offsets"]):
                 b.append(offset=i, timestamp=1000 + i, key=b"k", value=b"v", headers=[])
